@@ -27,9 +27,11 @@ def check(run):
     mid = len(cases) // 2
     run.samples = [c["abs"] for c in cases[mid:mid + 2]]
     loadfam.replay_load(run, cases, "Trace_Config", "Trace_Config.cfg", key_of=_key, tag="_json", trace_env={"EXT": "json"})
-    if run.tier == "thorough":
-        loadfam.replay_load(run, cases, "Trace_Config", "Trace_Config.cfg", build_features=("yaml",), variant="yaml",
-                            fmt="yaml", key_of=lambda c, r: "yaml;" + _key(c, r), tag="_yaml", trace_env={"EXT": "yaml"})
+    # the other readers: which file is opened depends on the extensions the build knows (.yaml before .yml; .json5)
+    variants = [("yaml", "yaml", "yaml")] if run.tier == "quick" else [("yaml", "yaml", "yaml"), ("yaml", "yaml", "yml"), ("json5", "json5", "json5")]
+    for feat, fmt, ext in variants:
+        loadfam.replay_load(run, cases, "Trace_Config", "Trace_Config.cfg", build_features=(feat,), variant=feat,
+                            fmt=fmt, ext=ext, key_of=lambda c, r, e=ext: e + ";" + _key(c, r), tag="_" + ext, trace_env={"EXT": ext})
     run.exhaustive = True
     run.assumptions = ["locale lists up to the tier's length over {en,fr,de} incl. duplicates; 4 namespace choices; 8 inherits tables; textual variants of the manifest",
                        "files that must not be read are present as unparsable decoys; one required file is dropped in a second case per valid configuration"]
